@@ -1,3 +1,4 @@
+#include <cmath>
 #include <limits>
 #include <symengine/printers/strprinter.h>
 
@@ -213,6 +214,9 @@ std::string print_double(double d)
     s.precision(std::numeric_limits<double>::digits10);
     s << d;
     auto str_ = s.str();
+    // inf, -inf, nan
+    if (not std::isfinite(d))
+        return str_;
     if (str_.find(".") == std::string::npos
         and str_.find("e") == std::string::npos) {
         if (std::numeric_limits<double>::digits10 - str_.size() > 0) {
